@@ -339,7 +339,7 @@ func (p *Parser) parseComparisonExpression() (ast.Expression, error) {
 		}
 
 		// Parse the right side of the expression
-		right, err := p.parsePrimaryExpression()
+		right, err := p.parseStringConcatExpression()
 		if err != nil {
 			return nil, err
 		}
